@@ -415,6 +415,13 @@ def run_symbolic_unit(oid, case_idx, tier):
     try:
         budget = dict(max_paths=ob.budget.get('paths', 20000), max_seconds=ob.budget.get('seconds', 240),
                       timeout_ms=ob.budget.get('timeout_ms', 10000))
+        # global wall-clock budget of the deductive phase of this run (set by the driver): a unit that starts after the deadline,
+        # or runs into it, is UNDECIDED (its native stand-in decides) - the check always ends with a verdict in bounded time
+        import os as _os
+        import time as _time
+        _dl = float(_os.environ.get('VERIF_DEADLINE', '0') or 0)
+        if _dl:
+            budget['max_seconds'] = max(1, min(budget['max_seconds'], _dl - _time.time()))
         for c, kind, out in explore(body, **budget):
             res['paths'] += 1
             res['solver_s'] += c.solver_s
